@@ -29,6 +29,7 @@ def run_proof_job(args):
     t0 = time.time()
     try:
         from .unyt_domain import UnytDomain
+        from . import np_domain  # noqa: F401 (installs the array model)
         smt.reset_stats()
         repo = Repo(repo_root)
         dom = UnytDomain(repo)
